@@ -1599,6 +1599,7 @@ def run_impl(case, pid):
     }
     for sp in SCHED_PIDS:
         nt[sp] = nt['C09']
+    nt['C06'] = st['fn:load_allocations'] >= 2 and st['c06-queued-instance'] >= 1
     run.nontrivial = bool(nt.get(pid))
     return run
 
@@ -1865,6 +1866,8 @@ def _cycle(w, pid, dt=2):
         snap = {k: v for k, v in snap.items() if k in view.apps}
         eng_sched.monitors(view, pid, snap, w.mon_queues, w.run, set())
         w.mon_queues = None
+    if pid == 'C06':
+        _monitor_partition_queues(w)
     moved = 0
     for an, a in w.m.cell.apps.items():
         b = before.get(an)
@@ -1876,6 +1879,39 @@ def _cycle(w, pid, dt=2):
         w.stats['moving-cycle'] += 1
     w.m.check_placement_integrity()
     w.stats['cycles'] += 1
+
+
+def _monitor_partition_queues(w):
+    """C06 on the cell the real Loader maintains: every scheduled instance is queued exactly once, in the
+    partition the stored /allocations assign it to (every change of /allocations is followed by its event in
+    this engine, so the assignment is in force at the next cycle)."""
+    import fnmatch
+    arec = w.store.nodes.get('/allocations')
+    try:
+        allocs = json.loads(arec.data.decode()) if arec is not None and arec.data else []
+    except ValueError:
+        return
+    where = collections.defaultdict(list)
+
+    def walk(part, alloc):
+        for an in alloc.apps:
+            where[an].append(part)
+        for sub in alloc.sub_allocations.values():
+            walk(part, sub)
+    for pname, part in list(w.m.cell.partitions.items()):
+        walk(pname or '_default', part.allocation)
+    for an in w.m.cell.apps:
+        base = an.split('#')[0]
+        hits_ = [a_ for a_ in (allocs or []) for asg in a_.get('assignments', [])
+                 if fnmatch.fnmatch(base, asg.get('pattern', '')) or fnmatch.fnmatch(an, asg.get('pattern', ''))]
+        if len(hits_) > 1:
+            continue                        # ambiguous in the generator's own terms: not judged
+        want = (hits_[0].get('partition') or '_default') if hits_ else '_default'
+        w.stats['c06-queued-instance'] += 1
+        if where.get(an) != [want]:
+            w.run.hits.append(fw.Hit(clause='partition-queue-once', call_site='Loader.load_allocations/load_apps',
+                                     detail='%s is queued in %r, the stored allocations assign it to %r' % (
+                                         an, where.get(an, []), want)))
 
 
 def _stale_now(w):
